@@ -153,3 +153,9 @@ contract(f"{ES}::TunnelExitSocket.datagram_received_ipv6", "datagram_received_ip
          on_effect={"datagram_received": ["host[:7] != '::ffff:'", "args[0] == data", "args[1] == (host, port)",
                                           "isinstance(args[1], UDPv6Address)"]},
          ensures=["len(calls('datagram_received')) <= 1"])
+
+
+# "the outside socket is opened only by data that came from the IP address of the circuit's own previous hop" (shared with C05)
+from contracts.tunnel_common import *  # noqa: E402,F403
+
+exit_data_contract()
